@@ -18,11 +18,11 @@ NA = {
 }
 
 TECH = {
-    "C02": "ILP constraint-template extraction (linear normal forms with loop/guard context) checked against a required-family table; truth-table folding of XOR/OR gadgets",
+    "C02": "whole-function folding of solve_major_model and the lifted solver wrapper class against a recording MILP-library stand-in; with an unbounded gap the routine's own report lists every combination the model admits, compared with an independent enumeration of the statement's admissible combinations and their fit errors; gap reports; _filter_alleles / estimate_major folded whole",
     "C03": "whole-function folding of solve_cn_model and the lifted solver wrapper class against a recording MILP-library stand-in; the extracted model is enumerated exhaustively (own simplex for the continuous part) and compared pointwise with an independent reference of the documented model; report checked clause by clause; routes by folding estimate_cn, _parse_user_solution, the database loader and genotype()",
-    "C04": "ILP constraint-template extraction (count ties, products, coverage equations, rules 2-5, objective, read-out)",
-    "C05": "truth-table folding of extracted abssum/prod gadget constraints; typestate / must-pass-through on the CFG of the solution enumerator",
-    "C06": "per-op tables of the CIGAR walkers derived by partial evaluation of the lifted parser on one tiny read per op (plus a syntactic cursor table read off the if/elif chain) vs the SAM consumes-reference/query table; eligibility loop folded on read stubs; tuple layout; out-of-gene folding",
+    "C04": "whole-function folding of solve_minor_model and the lifted solver wrapper against a recording MILP-library stand-in; every assignment the built model admits is obtained through the routine's own read-out (the wrapper instance is given an exhaustive `solutions`), checked against the statement's clauses and compared with an independent enumeration (admitted set, objective incl. read-group disagreement); reports for max_solutions 1 and 3; estimate_minor pooling folded whole",
+    "C05": "the solver wrapper class (abssum, prod, solutions, CBC.*) lifted and run against a recording library on seeded random small models of the shape aldy builds: yields vs exhaustive evaluation (optimum, feasibility, gap, no repetition, order, superset rule), helper exactness; plus truth-table folding of the gadget constraints, typestate of the enumerator, CBC status/read-back table, name escaping",
+    "C06": "per-op tables of the CIGAR walkers derived by folding the parser on one tiny read per op vs the SAM consumes-reference/query table; _load_sam folded whole on read stubs (eligibility, index independence, argument order); strict half-open region predicate on an interval grid; quality binning calibrated through the fold; out-of-gene folding",
     "C07": "formula of the lifted normalisation routine folded on sample depth tables (monomial, k-fold invariance, self-profile = 2.0 through the profile writer folded whole on synthesised reads); sibling depth-counter agreement per CIGAR op and per SAM flag class (loaders folded whole); zero-guard; estimate_cn folded whole for the consumer",
     "C08": "lifted coordinate converter folded on generated variants of every kind x strand (sequence-level haplotype equality) plus a syntactic per-kind strand offset table as linear forms over len(); inverse maps and lookup sequence vs an independent reading of the alignment string; stored-notation readers; indel bridge with a recording Variant stub",
     "C09": "bounded partial evaluation of the lifted database loader on generated gene databases (two builds, opposite strands, fusions, deletion, duplicates; thorough: seeded random allele tables); loaded catalogue checked clause by clause against an independent reading of the database",
